@@ -287,5 +287,6 @@ FIXED = [
     "fixed: property=C14 6feeb94 argparse parser: add_argument('-n', '--name') returned a parameter with the empty name (and a positional 'name' the name 'me'): two characters were cut off the first option string",
     "fixed: property=C14 520cde0 live function/class (inspect path): a builtin annotation came back as the type \"<class 'int'>\" (not an expression), 'str' as 'r'",
     "fixed: property=C14 4aca4fd live class without a docstring: the result had no 'doc' key (and no 'returns')",
+    "fixed: property=C14 b0d6833 function parser: parameters before the positional-only marker were missing from the result unless documented (def f(a, b=2, /, c=3) -> only c, and c got the default None); a positional-only receiver (def f(self, /, a)) was taken for an ordinary parameter",
     "fixed: property=C14 4849e1b NumPy docstring with a named return ('result : Dict[str, int]' under Returns): the whole line became the return type, which is not a Python expression",
 ]
